@@ -6,7 +6,9 @@ package snowflake_client
 
 import (
 	"net"
+	"time"
 
+	"git.torproject.org/pluggable-transports/snowflake.git/v2/common/event"
 	"github.com/xtaci/smux"
 )
 
@@ -31,7 +33,7 @@ type verifPipeWriter interface {
 // VerifNewFakePeer builds a WebRTCPeer the way the repository's own tests do (no pion objects), with
 // the given transport and receive pipe.
 func VerifNewFakePeer(t verifTransport, r verifPipeReader, w verifPipeWriter) *WebRTCPeer {
-	return &WebRTCPeer{closed: make(chan struct{}), transport: t, recvPipe: r, writePipe: w, bytesLogger: &bytesNullLogger{}}
+	return &WebRTCPeer{closed: make(chan struct{}), transport: t, recvPipe: r, writePipe: w, bytesLogger: &bytesNullLogger{}, eventsLogger: event.NewSnowflakeEventDispatcher()}
 }
 
 // VerifNewSession calls the real newSession.  With VerifCapture_newSession set (a hook inserted by
@@ -43,3 +45,15 @@ func VerifNewSession(c SnowflakeCollector) (net.PacketConn, *smux.Session, error
 
 // VerifCapture_newSession is called by the hook the instrumenter inserts into newSession.
 var VerifCapture_newSession func(map[string]interface{})
+
+// VerifStartStaleness starts the peer's real staleness check, as connect() does once the data channel
+// is open.
+func VerifStartStaleness(c *WebRTCPeer) { go c.checkForStaleness(SnowflakeTimeout) }
+
+// VerifNoteReceive does what the data channel's OnMessage callback does after handing the message to
+// the receive pipe: it refreshes lastReceive.
+func VerifNoteReceive(c *WebRTCPeer) {
+	c.mu.Lock()
+	c.lastReceive = time.Now()
+	c.mu.Unlock()
+}
